@@ -1,4 +1,5 @@
 //! lv_files: stored-file formats and naming (C14, C15).
+mod api;
 mod envelope;
 mod naming;
 mod objects;
@@ -8,5 +9,6 @@ fn main() {
     v.extend(envelope::suites());
     v.extend(objects::suites());
     v.extend(naming::suites());
+    v.extend(api::suites());
     lvharness::cli_main(v);
 }
